@@ -455,16 +455,25 @@ class Gen(object):
         b = self.pick(rng.choice(["dur", "dur", "tz"])) or a
         mb = self.meta[b]
         mag = ma.get("mag", 5) + mb.get("mag", 5)
+        # arithmetic on a TimeZone gives a TimeZone (whose hours and minutes
+        # may then be of mixed sign, or minutes beyond 59): such zones are
+        # used as zones later on
+        rtype = "tz" if typ == "tz" else "dur"
+        rmeta = {"unknown": False} if rtype == "tz" else {}
         if r < 0.5:
+            if typ == "tz" and rng.random() < 0.6:
+                b = self.pick("tz", unknown=False) or b
             return self.op("dur." + rng.choice(["add", "sub", "add", "sub",
                                                 "iadd", "isub"]), [a, b],
-                           result="dur", client=client, mag=mag)
+                           result=rtype, client=client, mag=mag, **rmeta)
         if r < 0.62:
             n = rng.choice([0, 1, -1, 2, 3, 7, -12, rng.randint(-40, 40)])
+            if typ == "tz":
+                n = rng.choice([2, -1, 3, 1])
             return self.op("dur." + rng.choice(["mul", "rmul", "imul"]), [a],
                            [n],
-                           result="dur", client=client,
-                           mag=ma.get("mag", 5) * max(1, abs(n)))
+                           result=rtype, client=client,
+                           mag=ma.get("mag", 5) * max(1, abs(n)), **rmeta)
         if r < 0.68:
             return self.op("dur.floordiv", [a], [rng.choice(
                 [1, 2, 7, -3, 0, rng.randint(1, 60)])],
@@ -896,6 +905,15 @@ def gen_directed(rng, index):
             op("tp.to_time_zone", [p1, x])
             op("tp.to_time_zone", [p2, x])
             op("tp.to_time_zone", [tt, x])
+            # zones that come out of TimeZone arithmetic (mixed signs,
+            # minutes beyond 59) used as zones
+            zh = add({"k": "mk", "t": "tz", "kw": {"hours": 0,
+                                                   "minutes": 30}})
+            for zz in (op("dur.sub", [x, zh]), op("dur.add", [x, zh]),
+                       op("dur.mul", [x], [2])):
+                op("tp.to_time_zone", [p1, zz])
+                op("tp.to_time_zone", [p2, zz])
+                op("dur.hash_str", [zz])
         elif meta.get("mag", 5) <= 5000 and not mk.get("kw") and (
                 not mk.get("text", "-").startswith("-")) and (
                 mk.get("text") != "P0Y"):
